@@ -10,6 +10,7 @@
    with any amounts and any number of changers (`good_init`). *)
 From Coq Require Import List ZArith NArith Bool.
 From Tele Require Import Gen.Consts Gen.GoFns Model.CounterConc Proofs.CounterWord Proofs.CounterInv Proofs.CounterThms Proofs.GoFnsCounter.
+From Tele Require Import Model.Register Proofs.RegisterFacts.
 Import ListNotations.
 Open Scope Z_scope.
 
@@ -102,6 +103,29 @@ Theorem C03_word_ops_are_the_go_code : forall b, 0 <= b < W64 ->
   (forall n, 0 <= n < W64 -> go_counterStateBits_addExtra b n = w_add_extra b n).
 Proof. exact word_ops_are_go. Qed.
 Print Assumptions C03_word_ops_are_the_go_code.
+
+(* The lock-free registration of counters in the file's list (file.register),
+   any number of goroutines, several of which may register the same counter,
+   every interleaving of the individual atomic operations: at every instant the
+   list from the head is a duplicate-free chain ending at the end marker, and
+   once all calls have returned every registered counter is in it (so every
+   later invalidation reaches it). *)
+Theorem C03_registration_list_well_formed : forall n who sched, Forall (fun c => c < n)%nat who ->
+  let '(s, ts) := rrun sched (rinit n who) in
+  exists l, HeadChain s l /\ NoDup l /\ (forall c, In c l -> (c < length (r_next s))%nat).
+Proof. exact list_well_formed. Qed.
+Print Assumptions C03_registration_list_well_formed.
+Theorem C03_registration_complete : forall n who sched, Forall (fun c => c < n)%nat who ->
+  let '(s, ts) := rrun sched (rinit n who) in
+  forallb rdone ts = true ->
+  exists l, HeadChain s l /\ NoDup l /\ forall t, In t ts -> In (rt_c t) l.
+Proof. exact all_registered. Qed.
+Print Assumptions C03_registration_complete.
+Theorem C03_registration_oracle : forall n who sched, Forall (fun c => c < n)%nat who ->
+  let '(s, ts) := rrun sched (rinit n who) in
+  list_ok s = true /\ (forallb rdone ts = true -> quiescent_ok s ts = true).
+Proof. exact oracle_accepts. Qed.
+Print Assumptions C03_registration_oracle.
 
 (* REFUTED clause (known finding `use-after-unmap`): "no call faults" is false of
    the faithful model: a reader parked before its cell load while a changer
